@@ -157,7 +157,18 @@ class PFEngine(Engine):
             self.setP(st, d2p_f(t) if t is not None else fresh_int('P_unknown'))
             st.trace.append('L%s:dps:=' % lineno)
             return True
+        if isinstance(target.value, ast.Name):
+            st.heap[('attr', target.value.id, target.attr)] = v
+            return True
         return False
+
+    def on_attr_node(self, p, node):
+        # fields stored on a plain name (self.origp = ...) are remembered per path
+        if isinstance(node.value, ast.Name):
+            key = ('attr', node.value.id, node.attr)
+            if key in p.st.heap:
+                return p.st.heap[key]
+        return None
 
     def on_setitem(self, px, target, v, st, frame, lineno):
         b = target.value
@@ -450,3 +461,30 @@ def decorated_with(fn, names):
         if isinstance(n, ast.Name) and n.id in names:
             return True
     return False
+
+
+def manager_pair_function(tree, clsname='PrecisionManager'):
+    """synthetic function for the context-manager protocol of `clsname`:
+         <__enter__ body>; try: __arbitrary_body__() finally: <__exit__ body>
+    built from the real method bodies; it must preserve the precision for an arbitrary body."""
+    cls = [n for n in ast.walk(tree) if isinstance(n, ast.ClassDef) and n.name == clsname]
+    if not cls:
+        return None
+    meths = {n.name: n for n in cls[0].body if isinstance(n, ast.FunctionDef)}
+    if '__enter__' not in meths or '__exit__' not in meths:
+        return None
+    import copy
+    ent = copy.deepcopy(meths['__enter__'])
+    ext = copy.deepcopy(meths['__exit__'])
+    call = ast.Expr(value=ast.Call(func=ast.Name(id='__arbitrary_body__', ctx=ast.Load()), args=[], keywords=[]))
+    ex_body = [s for s in ext.body if not isinstance(s, ast.Return)]
+    tr = ast.Try(body=[call], handlers=[], orelse=[], finalbody=ex_body)
+    fn = ast.FunctionDef(name='__with_protocol__', args=ext.args, body=ent.body + [tr], decorator_list=[],
+                         returns=None, type_comment=None)
+    fn.lineno = ent.lineno
+    fn.col_offset = 0
+    ast.fix_missing_locations(fn)
+    for n in ast.walk(fn):
+        if not hasattr(n, 'lineno'):
+            n.lineno = ent.lineno
+    return fn
